@@ -153,6 +153,15 @@ def _job(job):
         marks = rnd.sample(marks, 6)
     for m in marks:
         frag = lines[m["a"] - 1:m["z"]]
+        if m["e"] == "tags":
+            # blank and comment lines before / between the tag lines: they must not shift the tags' line numbers
+            spaced = []
+            for n, ln in enumerate(frag):
+                for _ in range(rnd.choice([0, 0, 1, 1, 2])):
+                    spaced.append({"c": "_", "a": "", "ps": [], "ind": 0, "lg": 1, "kw": 0} if rnd.random() < 0.5 else
+                                  {"c": "#", "a": "", "ps": [800000 + len(spaced)], "ind": 0, "lg": 1, "kw": 0})
+                spaced.append(ln)
+            frag = spaced
         tl3, dec3, cr3, tx3 = docrender.decorate(frag, lang, rnd, pick, tags_entry=(m["e"] == "tags"))
         t3 = u"\n".join(tl3)
         t3 += rnd.choice([u"", u"\n"])
@@ -192,9 +201,7 @@ def sig_of(v, row, m):
     if field == "exception":
         return "%s|entry=%s|field=exception|exc=%s|at=%s" % (clause, m["entry"], m["obs"]["exc"] or "None", m["at"])
     if m["entry"] == "tags":
-        attrs = m["attrs"]
-        shape = "comment_before_more_tags" if any(a[1] == "cmt" for a in attrs[:-1]) else "other"
-        return "%s|entry=tags|field=%s|shape=%s" % (clause, field, shape)
+        return "%s|entry=tags|field=%s" % (clause, field)
     cls, alias = "-", ""
     jj = j - 1 if m["entry"] == "steps" else j
     if 1 <= jj <= len(m["creators"]) and m["creators"][jj - 1] < len(m["attrs"]):
